@@ -57,6 +57,10 @@ type scenario struct {
 	StartAt []int    `json:"start_at"` // per module: tick at which the wrapper is started, -1 never
 	StopAt  []int    `json:"stop_at"`  // per module: tick at which the wrapper is stopped, -1 only at the end
 	Label   string   `json:"label"`
+	// Manager: all wrappers run under one services.Manager whose failure listener stops everything on the
+	// first failure (what Mimir / Loki do); MgrStopAt = tick of Manager.StopAsync (-1: only at the end)
+	Manager   bool `json:"manager,omitempty"`
+	MgrStopAt int  `json:"mgr_stop_at,omitempty"`
 }
 
 var stateCode = map[services.State]int{services.New: 0, services.Starting: 1, services.Running: 2,
@@ -70,6 +74,9 @@ type event struct {
 	T  int    `json:"-"`
 	W  []int  `json:"w"`
 	S  []int  `json:"s"`
+	// final event only: failure case of every wrapper / service (0 none, 1 modules.ErrStopProcess, 2 other)
+	WF []int `json:"wf,omitempty"`
+	SF []int `json:"sf,omitempty"`
 }
 
 type header struct {
@@ -113,6 +120,52 @@ func (r *recorder) log(ev string, m int, ok bool, do func()) {
 	if do != nil {
 		do()
 	}
+}
+
+func failClass(s services.Service) int {
+	if s == nil {
+		return 0
+	}
+	err := s.FailureCase()
+	switch {
+	case err == nil:
+		return 0
+	case errors.Is(err, modules.ErrStopProcess):
+		return 1
+	}
+	return 2
+}
+
+// logFinal appends the final event with the failure classes.
+func (r *recorder) logFinal() {
+	r.mu.Lock()
+	defer r.mu.Unlock()
+	w, s := r.snapshotLocked()
+	e := event{K: "e", Ev: "final", OK: true, T: int(time.Since(r.t0) / tick), W: w, S: s, WF: make([]int, r.n), SF: make([]int, r.n)}
+	for i := 0; i < r.n; i++ {
+		e.WF[i], e.SF[i] = failClass(r.w[i]), failClass(r.s[i])
+	}
+	r.events = append(r.events, e)
+}
+
+// obsWrapper sits between a services.Manager and a module wrapper: it logs the manager's StartAsync / StopAsync.
+type obsWrapper struct {
+	services.Service
+	r *recorder
+	m int
+}
+
+func (o *obsWrapper) StartAsync(ctx context.Context) error {
+	o.r.mu.Lock()
+	defer o.r.mu.Unlock()
+	w, s := o.r.snapshotLocked()
+	err := o.Service.StartAsync(ctx)
+	o.r.events = append(o.r.events, event{K: "e", Ev: "wstart", M: o.m, OK: err == nil, T: int(time.Since(o.r.t0) / tick), W: w, S: s})
+	return err
+}
+
+func (o *obsWrapper) StopAsync() {
+	o.r.log("wstop", o.m, true, func() { o.Service.StopAsync() })
 }
 
 // obsService is what the manager sees as the module's service.
@@ -164,9 +217,12 @@ func newScripted(r *recorder, m int, sc script) services.Service {
 			return nil
 		case <-time.After(time.Duration(sc.RunLat) * tick):
 		}
-		r.log("srunret", m, sc.Run != "fail", nil)
-		if sc.Run == "fail" {
+		r.log("srunret", m, sc.Run == "exit", nil)
+		switch sc.Run {
+		case "fail":
 			return errors.New("scripted run failure")
+		case "stopproc":
+			return modules.ErrStopProcess
 		}
 		return nil
 	}
@@ -240,6 +296,10 @@ func runScenario(t *testing.T, sc scenario) (res runResult) {
 			}
 			res.hdr.Blocks[m-1] = sc.Scripts[m-1].Run == "block"
 		}
+		if sc.Manager {
+			runUnderManager(r, sc, &res)
+			return
+		}
 		// the plan: (tick, start/stop, module), executed in order; equal ticks keep the scenario's order
 		type step struct {
 			at   int
@@ -296,7 +356,7 @@ func runScenario(t *testing.T, sc scenario) (res runResult) {
 		}
 		time.Sleep(1000 * tick)
 		synctest.Wait()
-		r.log("final", 0, true, nil)
+		r.logFinal()
 		// a service that is still active would leave goroutines blocked in the bubble: get them out
 		for _, m := range res.hdr.Svc {
 			if st := r.s[m-1].State(); st == services.Starting || st == services.Running {
@@ -311,6 +371,59 @@ func runScenario(t *testing.T, sc scenario) (res runResult) {
 		r.mu.Unlock()
 	})
 	return res
+}
+
+// runUnderManager: every wrapper under one services.Manager; the first failure stops the manager.
+func runUnderManager(r *recorder, sc scenario, res *runResult) {
+	var ws []services.Service
+	for _, m := range res.hdr.Svc {
+		ws = append(ws, &obsWrapper{Service: r.w[m-1], r: r, m: m})
+	}
+	finish := func() {
+		r.mu.Lock()
+		res.events = append([]event(nil), r.events...)
+		r.mu.Unlock()
+	}
+	if len(ws) == 0 {
+		r.logFinal()
+		finish()
+		return
+	}
+	mgr, err := services.NewManager(ws...)
+	if err != nil {
+		res.problem = "services.NewManager: " + err.Error()
+		return
+	}
+	mgr.AddListener(services.NewManagerListener(nil, nil, func(services.Service) { mgr.StopAsync() }))
+	if err := mgr.StartAsync(context.Background()); err != nil {
+		res.problem = "Manager.StartAsync: " + err.Error()
+		return
+	}
+	if sc.MgrStopAt >= 0 {
+		time.Sleep(time.Duration(sc.MgrStopAt) * tick)
+		synctest.Wait()
+		mgr.StopAsync()
+	}
+	time.Sleep(1000 * tick)
+	synctest.Wait()
+	r.mu.Lock()
+	if len(r.events) > 0 {
+		res.horizon = r.events[len(r.events)-1].T
+	}
+	r.mu.Unlock()
+	mgr.StopAsync()
+	time.Sleep(1000 * tick)
+	synctest.Wait()
+	r.logFinal()
+	for _, m := range res.hdr.Svc {
+		if st := r.s[m-1].State(); st == services.Starting || st == services.Running {
+			res.leftover = true
+			r.s[m-1].(*obsService).Service.StopAsync()
+		}
+	}
+	time.Sleep(1000 * tick)
+	synctest.Wait()
+	finish()
 }
 
 // ---------------------------------------------------------------------------------------------
@@ -377,6 +490,8 @@ func applyFault(sc *script, kind string, rng *rand.Rand) {
 		}
 	case "stop":
 		sc.StopFail = true
+	case "stopproc":
+		sc.Run, sc.RunLat = "stopproc", 2*rng.Intn(4)
 	}
 }
 
@@ -428,7 +543,7 @@ func scenarios(t *testing.T, seed int64, thorough bool, emit func(sc scenario, s
 		kindsList := [][]string{nil}
 		if sh.kinds != nil {
 			kindsList = [][]string{sh.kinds}
-		} else if sh.n >= 3 {
+		} else if sh.n >= 3 && (thorough || rng.Intn(3) == 0) { // quick tier: a third of the shapes get the variant
 			hole := 1 + rng.Intn(sh.n)
 			k := make([]string, sh.n)
 			for i := range k {
@@ -506,6 +621,65 @@ func scenarios(t *testing.T, seed int64, thorough bool, emit func(sc scenario, s
 						sc.Label = base.Label + " staggered"
 						emit(sc, true)
 					}
+				}
+			}
+		}
+	}
+	// the services.Manager family: stop-on-first-failure, ErrStopProcess
+	for _, sh := range shapes {
+		if len(sh.edges) == 0 || (thorough && sh.n == 4 && sh.kinds == nil && len(sh.label) > 4 && sh.label[:4] == "down") {
+			continue
+		}
+		for _, fk := range append(append([]string{}, faultKinds...), "stopproc") {
+			kinds := sh.kinds
+			if kinds == nil {
+				kinds = make([]string, sh.n)
+				for i := range kinds {
+					kinds[i] = "svc"
+				}
+			}
+			faulty := []int{0}
+			if fk != "none" {
+				faulty = nil
+				for m := 1; m <= sh.n; m++ {
+					if kinds[m-1] == "svc" {
+						faulty = append(faulty, m)
+					}
+				}
+				if !thorough || sh.n == 4 {
+					faulty = []int{faulty[rng.Intn(len(faulty))]}
+				}
+			}
+			for _, f := range faulty {
+				scripts := make([]script, sh.n)
+				for i := range scripts {
+					scripts[i] = okScript(rng)
+				}
+				if f > 0 {
+					applyFault(&scripts[f-1], fk, rng)
+				}
+				base := scenario{ID: next(), N: sh.n, Edges: sh.edges, Kind: kinds, Scripts: scripts, Targets: allTargets(sh.n),
+					StartAt: fill(sh.n, 0), StopAt: fill(sh.n, -1), Manager: true, MgrStopAt: -1,
+					Label: fmt.Sprintf("manager %s fault=%s@%d", sh.label, fk, f)}
+				probe := runScenario(t, base)
+				emit(base, true)
+				h := probe.horizon
+				if h > 30 {
+					h = 30
+				}
+				ticks := []int{rng.Intn(h + 2)}
+				if thorough {
+					ticks = nil
+					for k := rng.Intn(2); k <= h+1; k += 2 {
+						ticks = append(ticks, k)
+					}
+				}
+				for _, k := range ticks {
+					sc := base
+					sc.ID = next()
+					sc.MgrStopAt = k
+					sc.Label = base.Label + fmt.Sprintf(" stop@%d", k)
+					emit(sc, true)
 				}
 			}
 		}
